@@ -38,3 +38,31 @@ Example c17_nonvacuous :
   = [[1%N; 2%N; 3%N; 4%N; 5%N; 6%N; 7%N; 8%N; 9%N; 10%N; 11%N; 12%N]] /\
   wbuf (wrun 4 [WWrite [1%N; 2%N]; WWritev [[3%N; 4%N; 5%N]]]) = [5%N].
 Proof. vm_compute. split; reflexivity. Qed.
+
+(* ---- the same wrappers over a connection that FAILS (Model/BufioFault.v, replayed against
+   transport.NewTransport by h_bufio): for every buffer size, operation sequence and fault plan (the k-th
+   Write on the connection accepts only a bytes and reports an error - a timeout or not) ---- *)
+From GN Require Import Model.BufioFault Proof.BufioFault_proofs.
+(* after every operation the far end holds a prefix of the bytes the calls reported as accepted, in call
+   order; once a Flush has reported success it holds exactly those bytes *)
+Theorem c17_faults_call_order : forall wsize plan ops, fholds [] ops (fst (frun wsize (finit plan) ops)).
+Proof. exact fault_call_order. Qed.
+Print Assumptions c17_faults_call_order.
+(* a failed connection write is never papered over: every later operation of a buffered variant accepts
+   nothing, changes nothing and reports failure *)
+Theorem c17_faults_sticky : forall wsize s o, 0 < wsize -> f_err s = true ->
+  exists ok, fstep wsize s o = (0, ok, s) /\ (o <> WWritev [] -> ok = false).
+Proof. exact fault_sticky. Qed.
+Print Assumptions c17_faults_sticky.
+(* without faults this model IS Model/Bufio.v: all operations succeed in full, same connection log and buffer *)
+Theorem c17_fault_free_is_bufio : forall wsize ops s w, fsim s w ->
+  fsim (snd (frun wsize s ops)) (fold_left (wstep wsize) ops w) /\
+  Forall2 (fun o r => r = (blen (wpayload o), true, snd r)) ops (fst (frun wsize s ops)).
+Proof. exact fault_free_agrees. Qed.
+Print Assumptions c17_fault_free_is_bufio.
+Example c17_faults_nonvacuous :
+  (* 8-byte buffer; the first connection write (the Flush) accepts 3 of 7 bytes and fails: the 4 others stay
+     buffered, the next Write and Flush fail, the far end keeps the 3-byte prefix *)
+  fst (frun 8 (finit (Some (O, 3))) [WWrite [1%N; 2%N; 3%N; 4%N; 5%N; 6%N; 7%N]; WFlush; WWrite [8%N]; WFlush])
+  = [(7, true, []); (0, false, [1%N; 2%N; 3%N]); (0, false, [1%N; 2%N; 3%N]); (0, false, [1%N; 2%N; 3%N])].
+Proof. vm_compute. reflexivity. Qed.
